@@ -693,6 +693,10 @@ def check_value(ctx, v, origin, light=False, repr_checks=True):
                 fail_key = EXPLAINERS[_cls(xc)](xc, yc)
             if fail_key is None:
                 fail_key = _classify(cdiffs, jdiffs if not container else [], "C11:roundtrip-not-equal:" + _cls(xc), False)
+        if not eq and not sdiffs:
+            # nothing stored differs, yet == says no: record what the two sides compare
+            wit["eq_values_x"] = _try(lambda: repr(xc._value_equality_values_())[:1500])
+            wit["eq_values_y"] = _try(lambda: repr(yc._value_equality_values_())[:1500])
         ctx.check(eq, "json-roundtrip-eq", fail_key or "?",
                   lambda: "read_json(to_json(x)) != x; got %s ; differences: %s" % (repr(y)[:300], _diff_txt(sdiffs)), **wit)
 
